@@ -11,6 +11,45 @@ use std::time::Instant;
 
 pub const VERIF_ROOT: &str = "/verif";
 
+// ---------------------------------------------------------------------------------------------
+// stderr handling: the crate under test prints "ZipWriter drop failed: ..." to stderr whenever a
+// dropped writer cannot finalize; the explorations provoke that millions of times. File
+// descriptor 2 is pointed at /dev/null and the harness's own diagnostics go to a saved copy.
+
+extern "C" {
+    fn dup(fd: i32) -> i32;
+    fn dup2(oldfd: i32, newfd: i32) -> i32;
+}
+static DIAG_FD: std::sync::atomic::AtomicI32 = std::sync::atomic::AtomicI32::new(2);
+
+pub fn silence_crate_stderr() {
+    use std::os::fd::AsRawFd;
+    unsafe {
+        let saved = dup(2);
+        if saved < 0 {
+            return;
+        }
+        if let Ok(null) = std::fs::OpenOptions::new().write(true).open("/dev/null") {
+            if dup2(null.as_raw_fd(), 2) >= 0 {
+                DIAG_FD.store(saved, std::sync::atomic::Ordering::SeqCst);
+            }
+        }
+    }
+}
+pub fn diag_write(s: &str) {
+    use std::io::Write;
+    use std::os::fd::FromRawFd;
+    let fd = DIAG_FD.load(std::sync::atomic::Ordering::SeqCst);
+    let mut f = std::mem::ManuallyDrop::new(unsafe { std::fs::File::from_raw_fd(fd) });
+    let _ = f.write_all(s.as_bytes());
+}
+#[macro_export]
+macro_rules! diag {
+    ($($arg:tt)*) => {{
+        $crate::util::diag_write(&format!("{}\n", format!($($arg)*)));
+    }};
+}
+
 #[derive(Clone, Copy, PartialEq, Eq, Debug)]
 pub enum Tier {
     Quick,
@@ -364,7 +403,7 @@ pub fn load_known(prop: &str) -> Vec<Known> {
     let v: Value = match serde_json::from_str(&txt) {
         Ok(v) => v,
         Err(e) => {
-            eprintln!("machinery: known_findings.json unreadable: {e}");
+            crate::diag!("machinery: known_findings.json unreadable: {e}");
             std::process::exit(2);
         }
     };
@@ -524,7 +563,7 @@ impl Ctx {
         let _ = std::fs::create_dir_all(&evdir);
         let evpath = format!("{evdir}/{}.json", self.prop);
         if let Err(e) = std::fs::write(&evpath, serde_json::to_string_pretty(&ev).unwrap() + "\n") {
-            eprintln!("machinery: cannot write evidence {evpath}: {e}");
+            crate::diag!("machinery: cannot write evidence {evpath}: {e}");
             return 2;
         }
 
@@ -551,7 +590,7 @@ impl Ctx {
         }
         if !self.machinery_errors.is_empty() {
             for m in &self.machinery_errors {
-                eprintln!("MACHINERY-ERROR: {m}");
+                crate::diag!("MACHINERY-ERROR: {m}");
             }
             // a confirmed violation outranks an incomplete run; without one the run is not a verdict
             if real.is_empty() {
